@@ -704,6 +704,10 @@ func (hs *serverHandshakeStateGM) setCipherSuite(id uint16, supportedCipherSuite
 			if candidate == nil {
 				continue
 			}
+			if candidate.flags&suiteECDHE != 0 {
+				// the ECDHE-SM2 key agreement is not implemented on the server side
+				continue
+			}
 			if version < VersionTLS12 && candidate.flags&suiteTLS12 != 0 {
 				continue
 			}
